@@ -89,6 +89,11 @@ claim("C14", "type-based effect rule (writes into prepared-state values) with a 
       "that no mutating graph method is applied to the prepared DAG, and that expression annotations and node data are written only by tabled prepare functions (C14.R1-R3); thorough: pluginsdk schema methods do not write their receiver (R4). "
       "Equality of results of repeated/overlapping runs is not decided.", NOTE)
 
+claim("C15", "constant/edge tables on the tag dispatch and builders, dominance and value-flow rules on the run-time selection, id-shape rules for group nodes",
+      "Decides the tag table (dispatch by tag, optional flags, or-disabled shape, one-of required keys), the run-time selection rules (optional presence = membership of the group node in the parent's resolved dependencies; "
+      "absent values dropped; one-of option = a resolved Or dependency with the discriminator set to its id; matching id separators) and group-node identity (C15.R1-R3), plus tag->dependency kind and walker agreement (shared). "
+      "Presence/absence as a function of source outcomes and event order is not decided.", NOTE)
+
 ALL = ["C%02d" % i for i in range(1, 21)]
 for pid in ALL:
     if pid not in P:
